@@ -199,6 +199,7 @@ var props = []propCfg{
 		ID: "C01", Pkg: "props/c01", Needs: []string{"fc", "gocache"},
 		Tests: []testCfg{
 			{Name: "TestCorpus", ShardsQ: 1, ShardsT: 1},
+			{Name: "TestKnown", ShardsQ: 1, ShardsT: 1},
 			{Name: "TestPrograms", Rapid: true, Quick: 320, Thorough: 6400, ShardsQ: 16, ShardsT: 16},
 		},
 		Rule:      "type-directed generation (rapid) of whole programs of the documented subset: shared record/union declarations (incl. self-referential ones), a prelude with the probe function and generic helpers, 1..8 units (helper functions, a recursive template, an entry function, one printing line in main), bodies built from lets, destructuring, function-valued lets, local functions (closures), lambdas, partial application of user / library / constructor functions, pipes and pipe chains, if/elif/else as statement and value, union match (all arm forms, default, any order) and string match (variable arm / default), records (permuted and qualified literals, field access, _.Field), tuples, slices, the operators, the four string literal forms and standard-library calls; effect probes (trace \"tN\" e) on about a fifth of the sub-expressions and on both sides of && / ||, both if branches and match arms. Oracle: fc must accept, go build must succeed, the binary must exit 0 and its stdout must equal, byte for byte, the trace of the independent reference evaluator (strict, left-to-right, lexical scoping). Plus the hand-kept corpus corpus/seeds/*.fo with hand-derived expected output. Non-trivial = the expected output contains at least one probe line and the program uses at least one of partial application / closure capture / match / if-as-value / pipe / lambda; distinct = hash of the source text.",
@@ -211,5 +212,22 @@ var props = []propCfg{
 		LevelText: "Generated-input search over whole programs with feature interactions, decided by compiling and running what fc emits against an evaluator that shares no code with fc. Hundreds (quick) to thousands (thorough) of programs of dozens of lines each; failures are shrunk by rapid to a small program and saved as source + expected output. Exploration: it cannot establish absence and covers the documented subset only.",
 		LevelNote: "Trusted: the reference evaluator and display model (harness/lang), the Go toolchain. The generator avoids constructs the documents do not promise (DESIGN.md section 3).",
 		DesignRef: "DESIGN.md section 4, C01",
+	},
+	{
+		ID: "C06", Pkg: "props/c06", Needs: []string{"fc"},
+		Tests: []testCfg{
+			{Name: "TestKnown", ShardsQ: 1, ShardsT: 1},
+			{Name: "TestLayouts", Rapid: true, Quick: 640, Thorough: 16000, ShardsQ: 16, ShardsT: 16},
+			{Name: "TestDedent", Rapid: true, Quick: 640, Thorough: 8000, ShardsQ: 8, ShardsT: 16},
+		},
+		Rule:      "a generated program of the full profile (1..3 units) is printed once in the canonical layout and three times with a random layout plan whose every decision is an independent rapid draw inside the layout grammar of the statement: body indentation 1..9 per block, blank lines, trailing spaces, own-line // and /* */ comments (also spanning lines) at any indentation, trailing comments, one-line vs multi-line if, a let right-hand side or a match arm body on the same or the next line, a line break before any |> (aligned or block form), one-line vs multi-line record declarations, indentation of union cases and match arms; all must yield byte-identical gen_prog.go (one evaluation = one re-laid-out text). Converse direction (TestDedent): hand-templated nested blocks (if-only, else branch, match arm, local function) with a marked statement written at the outer column and at the inner column: the two must give different Go, and re-indenting the inner block by another amount must give the same Go again. Non-trivial (layouts) = the plan deviates from canonical in >= 3 kinds of choice and the program reaches nesting depth >= 3; all dedent cases are non-trivial; distinct = hash of the re-laid-out text.",
+		Technique: "metamorphic property-based testing (rapid): same abstract program, different concrete layout => identical output; and its converse",
+		Assumptions: []string{
+			"layouts stay inside the grammar the property lists (no tabs, code never follows a multi-line comment on its last line)",
+			"known findings D15 (dangling else captured by an inner if-only) and D16 (block starting with a $ literal) are excluded by construction in the program generator; their reproducers are re-run on every run",
+		},
+		LevelText: "Generated-input search with a metamorphic oracle that compares fc with itself on purpose (the relation is the property): hundreds (quick) to tens of thousands (thorough) of re-laid-out programs with independent choices at every block, statement, arm and pipe. Exploration; failures shrink to a small program and layout.",
+		LevelNote: "Trusted: the printer keeps the block structure for every layout plan (it is also exercised by C01, whose programs use the canonical plan).",
+		DesignRef: "DESIGN.md section 4, C06",
 	},
 }
